@@ -578,8 +578,9 @@ func (c *Channel) addToInFlightPQ(msg *Message) {
 
 func (c *Channel) removeFromInFlightPQ(msg *Message) {
 	c.inFlightMutex.Lock()
-	if msg.index == -1 {
-		// this item has already been popped off the pqueue
+	if msg.index < 0 || msg.index >= len(c.inFlightPQ) || c.inFlightPQ[msg.index] != msg {
+		// this item has already been popped off the pqueue, or the pqueue was
+		// reset (Empty) after msg left the in-flight map and msg.index is stale
 		c.inFlightMutex.Unlock()
 		return
 	}
